@@ -348,10 +348,14 @@ Definition parse_action (simp : expr -> expr) (E : env) (isb : N -> bool) (x : a
     end
   else None.
 
-(* the re-read action: one precondition, the conjunction of the normalised written conjuncts *)
+(* the re-read action: ONE precondition, the conjunction of the normalised written conjuncts (none when it is TRUE:
+   add_precondition does not add TRUE; on the fragment this happens only for an empty group) *)
 Definition norm_action (simp : expr -> expr) (a : paction) : paction :=
   {| pa_params := pa_params a;
-     pa_pre := match map norm (pre_conjuncts simp (pa_pre a)) with [] => [] | l => [mkAnd l] end;
+     pa_pre := match pa_pre a with
+               | [] => []
+               | _ => let c := mkAnd (map norm (pre_conjuncts simp (pa_pre a))) in if is_true c then [] else [c]
+               end;
      pa_effs := norm_effs (pa_effs a) |}.
 
 Definition pddl_action_ok (simp : expr -> expr) (isb : N -> bool) (a : paction) : bool :=
